@@ -1588,6 +1588,19 @@ class DB:
                 continue
             raw = inline_body(self, f, originals, self.inlined, mode)
             if raw is not None:
+                if not os.environ.get("VERIF_NO_SPECIALISE"):
+                    from .inline import specialise_captured_callables
+                    extra = []
+                    st_ = []
+                    if specialise_captured_callables(self, raw, fid, originals, extra, st_):
+                        for cid, craw, q in extra:
+                            cf = Fn(self, craw)
+                            cf.crate = q.crate
+                            cf.uninlined = q
+                            cf.specialised_from = q.id
+                            self.fns[cid] = cf
+                        for _o, cq in st_:
+                            self.inlined.append((extra[0][0] if extra else fid, cq))
                 nf = Fn(self, raw)
                 nf.crate = f.crate
                 nf.uninlined = f
